@@ -849,6 +849,7 @@ def run(ck):
     ck.cov["trusted_base"] = TRUSTED
     ck.notes["null_cell_runs"] = null_cell_oracle(ck)
     ck.notes["placement_runs"] = placement_oracle(ck)
+    ck.notes["malformed_source_runs"] = malformed_source_oracle(ck)
     ck.log("correspondence: %d/%d agree; %s" % (len(kept) - len(bad), len(kept), {k: v for k, v in sorted(stats.items()) if k.startswith("exit:")}))
 
 
@@ -882,6 +883,54 @@ def null_cell_oracle(ck):
                               "nor completed" % (fmt, text, p.returncode, outs), {"kind": "null-cell", "format": fmt, "text": text, "stderr": p.stderr[-300:]})
         except Exception as ex:  # noqa
             ck.corr_problem("null-cell oracle could not run (%s)" % fmt, repr(ex)[:300])
+        finally:
+            shutil.rmtree(d, ignore_errors=True)
+    return n
+
+
+def malformed_source_oracle(ck):
+    """Direct oracle: a run space whose source FILE is malformed (a CSV row with more cells than the header, truncated JSON, an
+    NDJSON line that is no JSON, bytes that are not UTF-8, a directory in place of the file) and a pipeline argument that is a
+    directory.  None of these is a usage error of the command line: the launch is rejected with the documented code of its class
+    (2 unreadable file / 3 invalid configuration), nothing runs, and no Python traceback is the answer."""
+    import yaml
+    cases = [("csv-row-longer-than-header", "csv", b"value,tag\n1.0,a,EXTRA\n2.0,b\n"), ("json-truncated", "json", b'[{"value": 1.0}, {"value": '),
+             ("ndjson-bad-line", "ndjson", b'{"value": 1.0}\nnot json\n'), ("csv-not-utf8", "csv", b"value\n\xff\xfe1.0\n"),
+             ("json-not-utf8", "json", b'{"value": ["\xff"]}'), ("source-is-a-directory", "csv", None), ("pipeline-argument-is-a-directory", None, None)]
+    n = 0
+    for name, fmt, blob in cases:
+        d = tempfile.mkdtemp(prefix="verif_c17src_")
+        try:
+            doc = {"extensions": ["semantiva-examples"],
+                   "pipeline": {"nodes": [{"processor": "FloatValueDataSourceWithDefault"}, {"processor": "FloatTxtFileSaver", "parameters": {"path": "out_fixed.txt"}}]}}
+            argv = ["run", "p.yaml", "-q"]
+            if fmt is not None:
+                doc["run_space"] = {"blocks": [{"mode": "by_position", "source": {"format": fmt, "path": "rows." + fmt}}]}
+                if blob is None:
+                    os.mkdir(os.path.join(d, "rows." + fmt))
+                else:
+                    with open(os.path.join(d, "rows." + fmt), "wb") as f:
+                        f.write(blob)
+            else:
+                os.mkdir(os.path.join(d, "adir"))
+                argv = ["run", "adir", "-q"]
+            with open(os.path.join(d, "p.yaml"), "w") as f:
+                yaml.safe_dump(doc, f, sort_keys=False)
+            env = dict(os.environ)
+            env.update({"PYTHONPATH": core.REPO, "PYTHONHASHSEED": "0", "PYTHONDONTWRITEBYTECODE": "1"})
+            p = subprocess.run([core.PY, "-m", "semantiva.cli"] + argv, cwd=d, env=env, stdout=subprocess.PIPE, stderr=subprocess.PIPE,
+                               text=True, timeout=TIMEOUT)
+            outs = sorted(x for x in os.listdir(d) if x.startswith("out_"))
+            n += 1
+            want = (2,) if fmt is None else (2, 3)
+            if p.returncode not in want or outs or "Traceback (most recent call last)" in p.stderr:
+                ck.fail_input("C17:malformed-input-answered-with-a-traceback:%s" % name,
+                              "%s: `semantiva %s` exits %d (%s), output files %s; expected exit code %s, nothing written, an error message"
+                              % (name, " ".join(argv), p.returncode, "Python traceback on stderr" if "Traceback" in p.stderr else "no traceback", outs,
+                                 " or ".join(map(str, want))),
+                              {"kind": "malformed-source", "case": name, "format": fmt, "bytes": repr(blob), "stderr": p.stderr[-400:]})
+        except Exception as ex:  # noqa
+            ck.corr_problem("malformed-source oracle could not run (%s)" % name, repr(ex)[:300])
         finally:
             shutil.rmtree(d, ignore_errors=True)
     return n
